@@ -239,6 +239,10 @@ class Beam(_Simu):
         coord_e_pg = groupElem.Get_GaussCoordinates_e_pg(matrixType, elements)
         wJ_e_pg = groupElem.Get_weightedJacobian_e_pg(matrixType)[elements]
         N_e_pg = groupElem.Get_beam_N_e_pg(beamStructure)[elements]
+        # the rows of N are the components in the beam's local frame, the unknowns are the
+        # global ones: rotate the rows to the global frame (blockdiag(P) @ N).
+        Pt_e_pg = groupElem._Compute_P_e_pg(beamStructure)[elements][..., :dof_n, :dof_n]
+        N_e_pg = np.swapaxes(np.asarray(Pt_e_pg), -1, -2) @ np.asarray(N_e_pg)
         N_lag_pg = groupElem.Get_N_pg(matrixType)[:, 0, :]
 
         # Ne * dof_n * nPe DOFs per element (Hermitian N couples force and moment DOFs)
